@@ -747,6 +747,8 @@ func ruleNoEscapeTableInit(r *Run, p *Prog, table *ssa.Global) {
 	// The table's contents are derived by evaluating the stores into it over the constant index
 	// range of the initialiser loop (finite domain, see rule_eval.go) and compared with the
 	// predicate the escapers rely on: entry b is true exactly for 0x20 <= b <= 0x7e, b != '\\', b != '"'.
+	// The table is either filled in place by the package initialiser, or built by a function
+	// (`var t = newTable()`) whose result — a local array — is assigned as a whole.
 	n := 256
 	if a, ok := derefType(table.Type()).Underlying().(*types.Array); ok {
 		n = int(a.Len())
@@ -755,38 +757,112 @@ func ruleNoEscapeTableInit(r *Run, p *Prog, table *ssa.Global) {
 	stores := 0
 	undecided := ""
 	var pos token.Pos
-	for _, f := range p.ModFns {
+	isInit := func(f *ssa.Function) bool {
+		return f.Parent() == nil && (f.Name() == "init" || strings.HasPrefix(f.Name(), "init#"))
+	}
+	fns := append([]*ssa.Function{}, p.ModFns...)
+	if pk := p.Pkg("internal/json"); pk != nil {
+		if pi := pk.Func("init"); pi != nil {
+			fns = append(fns, pi) // initialisers of package-level variables
+		}
+	}
+	// (function, base) pairs whose element stores define the table
+	type site struct {
+		f    *ssa.Function
+		base ssa.Value
+	}
+	var sitesIn []site
+	for _, f := range fns {
 		if pkgRel(f) != "internal/json" {
 			continue
 		}
-		var sites []*ssa.Store
+		direct := false
 		eachInstr(f, func(b *ssa.BasicBlock, i int, in ssa.Instruction) {
-			if st, ok := in.(*ssa.Store); ok {
-				if ia, ok := st.Addr.(*ssa.IndexAddr); ok && ia.X == ssa.Value(table) {
-					sites = append(sites, st)
+			st, ok := in.(*ssa.Store)
+			if !ok {
+				return
+			}
+			if ia, ok := st.Addr.(*ssa.IndexAddr); ok && ia.X == ssa.Value(table) {
+				direct = true
+				pos = st.Pos()
+			}
+			if st.Addr == ssa.Value(table) {
+				pos = st.Pos()
+				if !isInit(f) {
+					undecided = "the whole table is assigned outside the package initialiser (in " + FnName(f) + ")"
+					return
 				}
-				if st.Addr == ssa.Value(table) {
-					undecided = "the whole table is assigned in " + FnName(f)
+				// *table = builder()  /  *table = *local
+				switch v := st.Val.(type) {
+				case *ssa.Call:
+					bf := staticCallee(&v.Call)
+					if bf == nil || !InModule(bf) || bf.Blocks == nil || len(bf.Params) != 0 {
+						undecided = "the table is assigned the result of a call that cannot be evaluated"
+						return
+					}
+					// the builder returns a local array
+					var ret *ssa.Alloc
+					okRet := true
+					eachInstr(bf, func(_ *ssa.BasicBlock, _ int, x ssa.Instruction) {
+						if rt, ok := x.(*ssa.Return); ok && len(rt.Results) == 1 {
+							ld, ok := rt.Results[0].(*ssa.UnOp)
+							if !ok || ld.Op != token.MUL {
+								okRet = false
+								return
+							}
+							al, ok := ld.X.(*ssa.Alloc)
+							if !ok || (ret != nil && ret != al) {
+								okRet = false
+								return
+							}
+							ret = al
+						}
+					})
+					if !okRet || ret == nil {
+						undecided = "the table builder " + FnName(bf) + " does not return one local array"
+						return
+					}
+					sitesIn = append(sitesIn, site{bf, ret})
+				case *ssa.UnOp:
+					if al, ok := v.X.(*ssa.Alloc); ok && v.Op == token.MUL {
+						sitesIn = append(sitesIn, site{f, al})
+					} else {
+						undecided = "the table is assigned from a value that cannot be evaluated"
+					}
+				case *ssa.Const:
+					// zero value
+				default:
+					undecided = "the table is assigned from a value that cannot be evaluated"
 				}
 			}
 		})
-		if len(sites) == 0 {
-			continue
+		if direct {
+			if !isInit(f) {
+				undecided = "the table is written outside the package initialiser (in " + FnName(f) + ")"
+				continue
+			}
+			sitesIn = append(sitesIn, site{f, table})
 		}
-		if !(f.Name() == "init" || strings.HasPrefix(f.Name(), "init#")) || f.Parent() != nil {
-			undecided = "the table is written outside the package initialiser (in " + FnName(f) + ")"
-			pos = sites[0].Pos()
-			continue
-		}
+	}
+	for _, sx := range sitesIn {
+		f, base := sx.f, sx.base
+		var sites []*ssa.Store
+		eachInstr(f, func(b *ssa.BasicBlock, i int, in ssa.Instruction) {
+			if st, ok := in.(*ssa.Store); ok {
+				if ia, ok := st.Addr.(*ssa.IndexAddr); ok && ia.X == base {
+					sites = append(sites, st)
+				}
+			}
+		})
 		for _, st := range sites {
 			stores++
-			pos = st.Pos()
+			if !pos.IsValid() {
+				pos = st.Pos()
+			}
 			record := func(e *miniEnv, s *ssa.Store) bool {
 				ia, ok := s.Addr.(*ssa.IndexAddr)
-				if !ok || ia.X != ssa.Value(table) {
-					_, isFA := s.Addr.(*ssa.FieldAddr)
-					_, isIA := s.Addr.(*ssa.IndexAddr)
-					return isFA || isIA || true // stores to other locations do not matter here
+				if !ok || ia.X != base {
+					return true // stores to other locations do not matter here
 				}
 				k, ok1 := e.eval(ia.Index, 0)
 				v, ok2 := e.eval(s.Val, 0)
